@@ -56,7 +56,7 @@ fn egcd128(a: i128, b: i128) -> (i128, i128, i128) {
 }
 
 fn operand(rng: &mut Rng, m: u64) -> u64 {
-    match rng.below(12) {
+    match rng.below(16) {
         0 => 0,
         1 => 1,
         2 => 2 % m,
@@ -64,6 +64,13 @@ fn operand(rng: &mut Rng, m: u64) -> u64 {
         4 => m - 2,
         5 => m / 2,
         6 => (m + 1) / 2,
+        // representatives whose PRODUCTS sit at the 2^31 / 2^32 / 2^63 / 2^64 thresholds of narrower arithmetic
+        7 | 8 => *rng.pick(&[32767u64, 32768, 32769, 46340, 46341, 46342, 50000, 65535, 65536, 65537, 92681, 92682, 131071, 131072,
+                             (1 << 31) - 1, 1 << 31, (1 << 31) + 1, 3_037_000_499, 3_037_000_500, 4_294_967_295]) % m,
+        9 => {
+            let k = 1 + rng.below(32);
+            ((1u64 << k) + rng.below(3)).wrapping_sub(1) % m
+        }
         _ => rng.below(m),
     }
 }
